@@ -10,7 +10,7 @@ LEVEL_TEXT = ("Static structural proof of necessary conditions: (R20.1) in Event
               "in the open-process table is given an end (popped-and-ended, or ended by the final sweep), duration "
               "events get their end before they are listed, and the context extraction runs only after the sweep. "
               "Interval arithmetic, boundary cases, equal-onset rows and Delay shifting are NOT decided.")
-LEVEL_EXTRA = "Added after the seeded evaluation: (R20.3) after Delay splitting, counts come from the split table; (R20.4) fresh index per Delay-shifted group; (R20.5) every access to the open-process table case-folds the definition name. (R20.6) the type/definition filter of unfold_context mutates neither its argument nor the manager's state. (R20.7) the context range of a process starts at the next time point, computed from the onsets."
+LEVEL_EXTRA = "Added after the seeded evaluation: (R20.3) after Delay splitting, counts come from the split table; (R20.4) fresh index per Delay-shifted group; (R20.5) every access to the open-process table case-folds the definition name. (R20.6) the type/definition filter of unfold_context mutates neither its argument nor the manager's state. (R20.7) the context range of a process starts at the next time point, computed from the onsets. R20.3 also covers the consumers of the event manager (results sized by its time points, not by the input table)."
 
 
 def _raising_guard(ctx, fi, word):
@@ -159,6 +159,21 @@ def run(ctx):
                               "so a process that is still open at the end of the file is cut short by the number of delayed "
                               "groups" % norm(c)[:50], desc="`%s` sized by the split table" % norm(c)[:40])
         ctx.floor("R20.3", "len()/range() uses after the Delay split", n_len, 2)
+
+    # consumers of the manager size their per-time-point results by the manager's time points, not by the input table
+    n_cons = 0
+    for f in prog.functions.values():
+        if not f.module.name.startswith("hed.tools.analysis") or f is create:
+            continue
+        for c in walk_no_nested(f.node):
+            if isinstance(c, ast.Call) and call_name(c) in ("len", "range") and c.args and "event_manager" in norm(c):
+                n_cons += 1
+                ctx.saw(f)
+                ctx.check("input_data" not in norm(c), "R20.3", f.qualname, c, loc(f, c),
+                          "`%s` sizes a per-time-point result by the input table; after Delay splitting the manager has more time "
+                          "points than the table has rows, so the last (delayed) time points are dropped" % norm(c)[:60],
+                          desc="%s: `%s` sized by the manager's time points" % (f.short, norm(c)[:40]))
+    ctx.floor("R20.3", "len()/range() over the event manager in its consumers", n_cons, 1)
 
     ctx.rule("R20.4", "each Delay-shifted group is appended under an index computed afresh for that group")
     from rules.c10 import delay_split_rule
